@@ -86,10 +86,15 @@ class AcceptScn:
                         pass
                     ch = gw.remote_exec(fn, **sig_kwargs)
                 except ValueError as e:
-                    out[name] = ("rejected", "ValueError", pipe.total - before, str(e)[:80])
-                    continue
+                    rej = ("ValueError", str(e)[:80])
                 except BaseException as e:  # noqa: BLE001
-                    out[name] = ("rejected", type(e).__name__, pipe.total - before, str(e)[:80])
+                    rej = (type(e).__name__, str(e)[:80])
+                else:
+                    rej = None
+                if rej is not None:
+                    # measured after the exception (and whatever its traceback kept alive) is gone: nothing may
+                    # have been sent for a call that was refused, and no channel id may have been used up
+                    out[name] = ("rejected", rej[0], pipe.total - before, rej[1])
                     continue
                 if name in ("raises_at",):
                     ch.send("x")
